@@ -61,6 +61,27 @@ type Palette struct {
 	Subs  []string // non-empty subtypes available
 	SubP  int      // probability (percent) that a label carries a subtype
 	NameP int      // probability that a struct-form label is named
+	// NameType, when non-nil, fixes one type per name (C08's domain) and
+	// NoSub forbids subtype labels altogether.
+	NameType map[string]int
+	NoSub    bool
+}
+
+// name draws a name usable for type t (any name unless NameType is set).
+func (p Palette) nameFor(g G, t int) string {
+	if p.NameType == nil {
+		return Pick(g, p.Names)
+	}
+	var ok []string
+	for _, n := range p.Names {
+		if p.NameType[n] == t {
+			ok = append(ok, n)
+		}
+	}
+	if len(ok) == 0 {
+		return ""
+	}
+	return Pick(g, ok)
 }
 
 func GenPalette(g G, allowIface bool, allowSub bool) Palette {
@@ -98,7 +119,7 @@ func (p Palette) concrete() []int {
 }
 
 func (p Palette) sub(g G) string {
-	if len(p.Subs) == 0 || !g.Pct(p.SubP) {
+	if p.NoSub || len(p.Subs) == 0 || !g.Pct(p.SubP) {
 		return ""
 	}
 	return Pick(g, p.Subs)
@@ -156,7 +177,7 @@ func GenSide(g G, pal Palette, n int, form string, output bool, allowPosRepeat b
 			l = Label{Type: Pick(g, pal.Types)}
 			if form != FormPos {
 				if g.Pct(pal.NameP) {
-					l.Name = Pick(g, pal.Names)
+					l.Name = pal.nameFor(g, l.Type)
 				}
 				l.Sub = pal.sub(g)
 				if l.Named() && g.Pct(15) {
@@ -248,7 +269,7 @@ func uniqTyped(ls []Label) []Label {
 func GenInput(g G, pal Palette, tok int) Input {
 	l := Label{Type: Pick(g, pal.concrete())}
 	if g.Pct(pal.NameP) {
-		l.Name = Pick(g, pal.Names)
+		l.Name = pal.nameFor(g, l.Type)
 	}
 	l.Sub = pal.sub(g)
 	l.Dyn = l.Type
@@ -266,6 +287,16 @@ func CompatSource(g G, pal Palette, p Label) Label {
 		}
 		return Pick(g, AllSubs)
 	}
+	if pal.NoSub {
+		// exact, or (for a named parameter) typed; (for a typed one) named
+		switch {
+		case p.Named() && g.Pct(60):
+			l.Name = p.Name
+		case !p.Named() && g.Pct(40):
+			l.Name = pal.nameFor(g, p.Type)
+		}
+		return l
+	}
 	if p.Named() {
 		switch k := g.Int(0, 3); {
 		case k <= 1: // exact
@@ -282,12 +313,12 @@ func CompatSource(g G, pal Palette, p Label) Label {
 		case k == 2: // typed without subtype
 			l.Sub = ""
 		case k == 3: // named, same subtype
-			l.Name, l.Sub = Pick(g, pal.Names), p.Sub
+			l.Name, l.Sub = pal.nameFor(g, p.Type), p.Sub
 		default:
 			if p.Sub == "" {
 				l.Sub = otherSub()
 				if g.Bool() {
-					l.Name = Pick(g, pal.Names)
+					l.Name = pal.nameFor(g, p.Type)
 				}
 			} else {
 				l.Sub = p.Sub
@@ -668,4 +699,18 @@ func GenUnderivable(g G, o GenFuncOpts) *Scenario {
 	}
 	_ = pal
 	return sc
+}
+
+// GenPaletteC08 draws a palette inside C08's domain: concrete types only, no
+// subtypes, each name denoting a single type.
+func GenPaletteC08(g G) Palette {
+	p := GenPalette(g, false, false)
+	p.NoSub = true
+	p.Subs, p.SubP = nil, 0
+	p.Names = AllNames[:g.Int(2, 4)]
+	p.NameType = map[string]int{}
+	for _, n := range p.Names {
+		p.NameType[n] = Pick(g, p.Types)
+	}
+	return p
 }
